@@ -1,0 +1,804 @@
+//go:build verif
+// +build verif
+
+package xpath
+
+// Contracts for the deductive verification in /verif (xvc). This file is
+// comment-only apart from the test hooks at the end; it is compiled only with
+// -tags verif. Syntax: see /verif/DESIGN.md section 2.3.
+
+// ---------------------------------------------------------------------------
+// Shared predicates
+
+//@ define valtype(v) = is(v, bool) || is(v, float64) || is(v, string) || is(v, query)
+
+// ---------------------------------------------------------------------------
+// Well-formedness of the query tree (type invariants). Established where an
+// object is built (obligation inv-established), re-checked at every later
+// write to one of its fields (inv-preserved), assumed wherever a pointer of
+// the type is read.
+
+//@ inv ancestorQuery: self.Input != nil && self.Predicate != nil
+//@ inv attributeQuery: self.Input != nil && self.Predicate != nil
+//@ inv childQuery: self.Input != nil && self.Predicate != nil
+//@ inv cachedChildQuery: self.Input != nil && self.Predicate != nil
+//@ inv descendantQuery: self.Input != nil && self.Predicate != nil
+//@ inv followingQuery: self.Input != nil && self.Predicate != nil
+//@ inv precedingQuery: self.Input != nil && self.Predicate != nil
+//@ inv parentQuery: self.Input != nil && self.Predicate != nil
+//@ inv selfQuery: self.Input != nil && self.Predicate != nil
+//@ inv descendantOverDescendantQuery: self.Input != nil && self.Predicate != nil && (self.level != 0 ==> self.currentNode != nil)
+//@ inv filterQuery: self.Input != nil && self.Predicate != nil
+//@ inv functionQuery: self.Func != nil
+//@ inv transformFunctionQuery: self.Input != nil && self.Func != nil
+//@ inv constantQuery: is(self.Val, float64) || is(self.Val, string)
+//@ inv groupQuery: self.Input != nil && !is(self.Input, nopQuery)
+//@ inv logicalQuery: self.Left != nil && self.Right != nil && self.Do != nil && !is(self.Left, nopQuery) && !is(self.Right, nopQuery)
+//@ inv numericQuery: self.Left != nil && self.Right != nil && self.Do != nil && !is(self.Left, nopQuery) && !is(self.Right, nopQuery)
+//@ inv booleanQuery: self.Left != nil && self.Right != nil
+//@ inv unionQuery: self.Left != nil && self.Right != nil
+//@ inv lastFuncQuery: self.Input != nil
+//@ inv mergeQuery: self.Input != nil && self.Child != nil
+//@ inv NodeIterator: self.node != nil && self.query != nil
+//@ inv Expr: self.q != nil
+//@ inv loadingCache: self.load != nil && self.m != nil && self.cap >= 0
+
+// ---------------------------------------------------------------------------
+// Interface contracts (every implementation must refine them)
+
+//@ iface query.Select(t) result
+//@   requires t != nil
+//@   tree-frame                     // assumed: see DESIGN "ownership"
+
+//@ iface query.Evaluate(t) result
+//@   requires t != nil
+//@   tree-frame
+//@   ensures[valtype@C15] valtype(result) || result == nil && is(self, nopQuery)
+
+//@ iface query.Clone() result
+//@   modifies nothing
+//@   ensures[nonnil@C15,C04] result != nil
+//@   ensures[same-type@C15,C04] tagof(result) == tagof(self) || is(self, *cachedChildQuery) && is(result, *childQuery)
+
+//@ iface query.Properties() result
+//@   modifies nothing
+//@ iface query.ValueType() result
+//@   modifies nothing
+//@ iface hash.Hash64.Write(b) result0, result1
+//@   trusted
+//@   modifies nothing
+//@ iface hash.Hash64.Sum64() result
+//@   trusted
+//@   modifies nothing
+
+//@ iface iterator.Current() result
+//@   modifies nothing
+//@   ensures[nonnil@C15] result != nil
+
+// ---------------------------------------------------------------------------
+// Contracts of function-valued fields (every function stored there must conform)
+
+//@ field functionQuery.Func(q, t) result
+//@   requires t != nil
+//@   ensures[valtype@C15] valtype(result)
+
+//@ field transformFunctionQuery.Func(q, t) result
+//@   requires q != nil && t != nil
+//@   ensures[nonnil@C15] result != nil
+
+//@ field logicalQuery.Do(t, m, n) result
+//@   requires t != nil && valtype(m) && valtype(n)
+//@   ensures[valtype@C15] valtype(result)
+
+//@ field numericQuery.Do(t, m, n) result
+//@   requires t != nil && valtype(m) && valtype(n)
+//@   ensures[valtype@C15] valtype(result)
+
+// ---------------------------------------------------------------------------
+// XPath function closures (func.go). Each constructor requires the argument
+// queries it captures to be non-nil (established by processFunction), each
+// closure relies on that through `captures` and must conform to the contract
+// of the field it is stored in.
+
+//@ func countFunc
+//@   props C15
+//@   modifies nothing
+//@   ensures[nonnil@C15] result != nil
+//@   requires[nonnil-args@C15] arg != nil
+//@ func countFunc$1
+//@   props C15
+//@   conforms functionQuery.Func
+//@   captures arg != nil
+
+//@ func sumFunc
+//@   props C15
+//@   modifies nothing
+//@   ensures[nonnil@C15] result != nil
+//@   requires[nonnil-args@C15] arg != nil
+//@ func sumFunc$1
+//@   props C15
+//@   panics "sum() function argument type must be a node-set or number"
+//@   conforms functionQuery.Func
+//@   captures arg != nil
+
+//@ func ceilingFunc
+//@   props C15
+//@   modifies nothing
+//@   ensures[nonnil@C15] result != nil
+//@   requires[nonnil-args@C15] arg != nil
+//@ func ceilingFunc$1
+//@   props C15
+//@   conforms functionQuery.Func
+//@   captures arg != nil
+
+//@ func floorFunc
+//@   props C15
+//@   modifies nothing
+//@   ensures[nonnil@C15] result != nil
+//@   requires[nonnil-args@C15] arg != nil
+//@ func floorFunc$1
+//@   props C15
+//@   conforms functionQuery.Func
+//@   captures arg != nil
+
+//@ func roundFunc
+//@   props C15
+//@   modifies nothing
+//@   ensures[nonnil@C15] result != nil
+//@   requires[nonnil-args@C15] arg != nil
+//@ func roundFunc$1
+//@   props C15
+//@   conforms functionQuery.Func
+//@   captures arg != nil
+
+//@ func nameFunc
+//@   props C15
+//@   modifies nothing
+//@   ensures[nonnil@C15] result != nil
+//@ func nameFunc$1
+//@   props C15
+//@   conforms functionQuery.Func
+
+//@ func localNameFunc
+//@   props C15
+//@   modifies nothing
+//@   ensures[nonnil@C15] result != nil
+//@ func localNameFunc$1
+//@   props C15
+//@   conforms functionQuery.Func
+
+//@ func namespaceFunc
+//@   props C15
+//@   modifies nothing
+//@   ensures[nonnil@C15] result != nil
+//@ func namespaceFunc$1
+//@   props C15
+//@   conforms functionQuery.Func
+
+//@ func booleanFunc
+//@   props C15
+//@   modifies nothing
+//@   ensures[nonnil@C15] result != nil
+//@   requires[nonnil-args@C15] arg1 != nil
+//@ func booleanFunc$1
+//@   props C15
+//@   conforms functionQuery.Func
+//@   captures arg1 != nil
+
+//@ func numberFunc
+//@   props C15
+//@   modifies nothing
+//@   ensures[nonnil@C15] result != nil
+//@   requires[nonnil-args@C15] arg1 != nil
+//@ func numberFunc$1
+//@   props C15
+//@   conforms functionQuery.Func
+//@   captures arg1 != nil
+
+//@ func stringFunc
+//@   props C15
+//@   modifies nothing
+//@   ensures[nonnil@C15] result != nil
+//@   requires[nonnil-args@C15] arg1 != nil
+//@ func stringFunc$1
+//@   props C15
+//@   conforms functionQuery.Func
+//@   captures arg1 != nil
+
+//@ func startwithFunc
+//@   props C15
+//@   modifies nothing
+//@   ensures[nonnil@C15] result != nil
+//@   requires[nonnil-args@C15] arg1 != nil && arg2 != nil
+//@ func startwithFunc$1
+//@   props C15
+//@   panics "starts-with() function argument type must be string"
+//@   conforms functionQuery.Func
+//@   captures arg1 != nil && arg2 != nil
+
+//@ func endwithFunc
+//@   props C15
+//@   modifies nothing
+//@   ensures[nonnil@C15] result != nil
+//@   requires[nonnil-args@C15] arg1 != nil && arg2 != nil
+//@ func endwithFunc$1
+//@   props C15
+//@   panics "ends-with() function argument type must be string"
+//@   conforms functionQuery.Func
+//@   captures arg1 != nil && arg2 != nil
+
+//@ func containsFunc
+//@   props C15
+//@   modifies nothing
+//@   ensures[nonnil@C15] result != nil
+//@   requires[nonnil-args@C15] arg1 != nil && arg2 != nil
+//@ func containsFunc$1
+//@   props C15
+//@   panics "contains() function argument type must be string"
+//@   conforms functionQuery.Func
+//@   captures arg1 != nil && arg2 != nil
+
+//@ func matchesFunc
+//@   props C15
+//@   modifies nothing
+//@   ensures[nonnil@C15] result != nil
+//@   requires[nonnil-args@C15] arg1 != nil && arg2 != nil
+//@ func matchesFunc$1
+//@   props C15
+//@   panics "matches() function second argument "
+//@   conforms functionQuery.Func
+//@   captures arg1 != nil && arg2 != nil
+
+//@ func normalizespaceFunc
+//@   props C15
+//@   modifies nothing
+//@   ensures[nonnil@C15] result != nil
+//@   requires[nonnil-args@C15] arg1 != nil
+//@ func normalizespaceFunc$1
+//@   props C15
+//@   conforms functionQuery.Func
+//@   captures arg1 != nil
+
+//@ func substringFunc
+//@   props C15
+//@   modifies nothing
+//@   ensures[nonnil@C15] result != nil
+//@   requires[nonnil-args@C15] arg1 != nil && arg2 != nil
+//@ func substringFunc$1
+//@   props C15
+//@   panics "substring() function "
+//@   conforms functionQuery.Func
+//@   captures arg1 != nil && arg2 != nil
+
+//@ func substringIndFunc
+//@   props C15
+//@   modifies nothing
+//@   ensures[nonnil@C15] result != nil
+//@   requires[nonnil-args@C15] arg1 != nil && arg2 != nil
+//@ func substringIndFunc$1
+//@   props C15
+//@   conforms functionQuery.Func
+//@   captures arg1 != nil && arg2 != nil
+
+//@ func stringLengthFunc
+//@   props C15
+//@   modifies nothing
+//@   ensures[nonnil@C15] result != nil
+//@   requires[nonnil-args@C15] arg1 != nil
+//@ func stringLengthFunc$1
+//@   props C15
+//@   conforms functionQuery.Func
+//@   captures arg1 != nil
+
+//@ func translateFunc
+//@   props C15
+//@   modifies nothing
+//@   ensures[nonnil@C15] result != nil
+//@   requires[nonnil-args@C15] arg1 != nil && arg2 != nil && arg3 != nil
+//@ func translateFunc$1
+//@   props C15
+//@   conforms functionQuery.Func
+//@   captures arg1 != nil && arg2 != nil && arg3 != nil
+
+//@ func replaceFunc
+//@   props C15
+//@   modifies nothing
+//@   ensures[nonnil@C15] result != nil
+//@   requires[nonnil-args@C15] arg1 != nil && arg2 != nil && arg3 != nil
+//@ func replaceFunc$1
+//@   props C15
+//@   panics "replace() function second argument is not a valid regexp pattern"
+//@   conforms functionQuery.Func
+//@   captures arg1 != nil && arg2 != nil && arg3 != nil
+
+//@ func notFunc
+//@   props C15
+//@   modifies nothing
+//@   ensures[nonnil@C15] result != nil
+//@   requires[nonnil-args@C15] arg1 != nil
+//@ func notFunc$1
+//@   props C15
+//@   conforms functionQuery.Func
+//@   captures arg1 != nil
+
+//@ func stringJoinFunc
+//@   props C15
+//@   modifies nothing
+//@   ensures[nonnil@C15] result != nil
+//@   requires[nonnil-args@C15] q != nil && arg1 != nil
+//@ func stringJoinFunc$1
+//@   props C15
+//@   conforms functionQuery.Func
+//@   captures q != nil && arg1 != nil
+
+//@ func lowerCaseFunc
+//@   props C15
+//@   modifies nothing
+//@   ensures[nonnil@C15] result != nil
+//@   requires[nonnil-args@C15] arg1 != nil
+//@ func lowerCaseFunc$1
+//@   props C15
+//@   conforms functionQuery.Func
+//@   captures arg1 != nil
+
+//@ func positionFunc$1
+//@   props C15
+//@   conforms functionQuery.Func
+//@ func lastFunc$1
+//@   props C15
+//@   conforms functionQuery.Func
+//@ func concatFunc
+//@   props C15
+//@   modifies nothing
+//@   ensures[nonnil@C15] result != nil
+//@   requires[nonnil-args@C15] elemsNonNil(args)
+//@ func concatFunc$1
+//@   props C15
+//@   conforms functionQuery.Func
+//@   captures elemsNonNil(args)
+//@ func (*builder).processFunction$1
+//@   props C15
+//@   conforms functionQuery.Func
+//@ func reverseFunc
+//@   props C15
+//@   conforms transformFunctionQuery.Func
+//@ func reverseFunc$1
+//@   props C15
+//@   captures 0 <= i && i <= len(list)
+
+// ---------------------------------------------------------------------------
+// Step iterators (query.go): the closures installed in .iterator capture the
+// receiver and the navigator they walk.
+
+//@ field type iteratorFunc() result
+//@   ensures[nonnil@C15] result != nil
+
+//@ func (*Expr).Evaluate
+//@   props C15
+//@   requires root != nil          // API precondition: a navigator is passed
+//@ func (*Expr).Evaluate$1
+//@   props C15
+//@   conforms type iteratorFunc
+//@   captures root != nil
+//@ func (*Expr).Select
+//@   props C15
+//@   requires root != nil
+
+//@ func (*ancestorQuery).Select
+//@   props C15
+//@   loop 0 invariant a.table != nil
+//@   loop 1 invariant a.table != nil && a.iterator != nil
+//@ func (*ancestorQuery).Select$1
+//@   props C15
+//@   captures a != nil && node != nil
+//@ func (*attributeQuery).Select$1
+//@   props C15
+//@   captures a != nil && node != nil
+//@ func (*childQuery).Select$1
+//@   props C15
+//@   captures c != nil && node != nil
+//@ func (*cachedChildQuery).Select$1
+//@   props C15
+//@   captures c != nil && node != nil
+//@ func (*descendantQuery).Select$1
+//@   props C15
+//@   captures d != nil && node != nil
+//@ func (*followingQuery).Select$1
+//@   props C15
+//@   captures f != nil && node != nil
+//@ func (*followingQuery).Select$2
+//@   props C15
+//@   captures f != nil && node != nil
+//@ func (*followingQuery).Select$2$1
+//@   props C15
+//@   conforms type iteratorFunc
+//@   captures node != nil
+//@ func (*precedingQuery).Select$1
+//@   props C15
+//@   captures p != nil && node != nil
+//@ func (*precedingQuery).Select$2
+//@   props C15
+//@   captures p != nil && node != nil
+//@ func (*precedingQuery).Select$2$1
+//@   props C15
+//@   conforms type iteratorFunc
+//@   captures node != nil
+//@ func (*booleanQuery).Select$1
+//@   props C15
+//@   captures 0 <= i
+//@ func (*unionQuery).Select$1
+//@   props C15
+//@   captures 0 <= i
+//@ func (*mergeQuery).Select$1
+//@   props C15
+//@   captures 0 <= i
+//@ func (*filterQuery).Select
+//@   props C15
+//@   loop 0 invariant f.positmap != nil
+//@ func (*descendantOverDescendantQuery).moveToFirstChild
+//@   props C15
+//@   requires[@C15] d.currentNode != nil
+//@   modifies heap(navpos), d.level
+//@ func (*descendantOverDescendantQuery).moveUpUntilNext
+//@   props C15
+//@   requires[@C15] d.currentNode != nil
+//@   modifies heap(navpos), d.level
+
+//@ field *.Predicate(n) result
+//@   requires n != nil
+//@   modifies nothing
+
+//@ field *.iterator() result
+//@   modifies heap(C@*), heap(navpos), heap(F:descendantQuery.level), heap(F:followingQuery.posit), heap(F:precedingQuery.posit), heap(F:descendantQuery.*), heap(F:contextQuery.count), heap(S:*)
+
+//@ func axisPredicate$1
+//@   props C15 C01 C14
+//@   conforms *.Predicate
+//@   captures root != nil
+
+// ---------------------------------------------------------------------------
+// Value conversions and comparison cells (func.go, operator.go)
+
+//@ func asBool
+//@   props C15 C07
+//@   requires[@C15] t != nil && (v == nil || valtype(v))
+//@ func asString
+//@   props C15
+//@   requires[@C15] t != nil && (v == nil || valtype(v))
+//@ func asNumber
+//@   props C15 C08
+//@   requires[@C15] t != nil
+//@ func predicate
+//@   props C15
+//@   modifies nothing
+//@   ensures result != nil
+//@ func functionArgs
+//@   props C15 C02 C04
+//@   requires[@C15] q != nil
+//@   modifies nothing
+//@   ensures[nonnil@C15] result != nil
+//@ func numericExpr
+//@   props C15 C08
+//@   requires[@C15] t != nil && cb != nil
+//@ func getHashCode
+//@   props C15 C11
+//@   requires[@C15] n != nil
+//@   modifies heap(navpos)
+//@ func getNodePosition
+//@   props C15 C03
+//@   modifies nothing
+//@ func getNodeDepth
+//@   props C15
+//@   modifies nothing
+
+// The comparison table. Which function sits in which cell is established by
+// the package initialiser and never changes (no other function stores to
+// logicalFuncs: checked mechanically).
+//@ define cellOK(f, name, m, n, tm, tn) = fn(f) == fnid(name) ==> tm && tn
+//@ field type logical(t, op, m, n) result
+//@   requires t != nil && valtype(m) && valtype(n)
+//@   requires fn(self) == fnid("cmpBooleanBoolean") ==> is(m, bool) && is(n, bool)
+//@   requires fn(self) == fnid("cmpBooleanAny") ==> is(m, bool) || is(n, bool)
+//@   requires fn(self) == fnid("cmpNumericNumeric") ==> is(m, float64) && is(n, float64)
+//@   requires fn(self) == fnid("cmpNumericString") ==> is(m, float64) && is(n, string)
+//@   requires fn(self) == fnid("cmpNumericNodeSet") ==> is(m, float64) && is(n, query)
+//@   requires fn(self) == fnid("cmpStringNumeric") ==> is(m, string) && is(n, float64)
+//@   requires fn(self) == fnid("cmpStringString") ==> is(m, string) && is(n, string)
+//@   requires fn(self) == fnid("cmpStringNodeSet") ==> is(m, string) && is(n, query)
+//@   requires fn(self) == fnid("cmpNodeSetNumeric") ==> is(m, query) && is(n, float64)
+//@   requires fn(self) == fnid("cmpNodeSetString") ==> is(m, query) && is(n, string)
+//@   requires fn(self) == fnid("cmpNodeSetNodeSet") ==> is(m, query) && is(n, query)
+
+//@ func init
+//@   props C15 C07 C16
+//@   ensures[table-shape] len(logicalFuncs) == 4 && forall(i, int, 0 <= i && i < 4 ==> len(logicalFuncs[i]) == 4)
+//@   ensures[table-row0] fn(logicalFuncs[0][0]) == fnid("cmpBooleanBoolean") && fn(logicalFuncs[0][1]) == fnid("cmpBooleanAny") && fn(logicalFuncs[0][2]) == fnid("cmpBooleanAny") && fn(logicalFuncs[0][3]) == fnid("cmpBooleanAny")
+//@   ensures[table-row1] fn(logicalFuncs[1][0]) == fnid("cmpBooleanAny") && fn(logicalFuncs[1][1]) == fnid("cmpNumericNumeric") && fn(logicalFuncs[1][2]) == fnid("cmpNumericString") && fn(logicalFuncs[1][3]) == fnid("cmpNumericNodeSet")
+//@   ensures[table-row2] fn(logicalFuncs[2][0]) == fnid("cmpBooleanAny") && fn(logicalFuncs[2][1]) == fnid("cmpStringNumeric") && fn(logicalFuncs[2][2]) == fnid("cmpStringString") && fn(logicalFuncs[2][3]) == fnid("cmpStringNodeSet")
+//@   ensures[table-row3] fn(logicalFuncs[3][0]) == fnid("cmpBooleanAny") && fn(logicalFuncs[3][1]) == fnid("cmpNodeSetNumeric") && fn(logicalFuncs[3][2]) == fnid("cmpNodeSetString") && fn(logicalFuncs[3][3]) == fnid("cmpNodeSetNodeSet")
+//@   ensures[regexp-cache] RegexpCache != nil && regexLoader(RegexpCache.load)
+//@   ensures[table-nonnil] forall(i, int, 0 <= i && i < 4 ==> forall(j, int, 0 <= j && j < 4 ==> logicalFuncs[i][j] != nil))
+//@ func cmpBooleanBoolean
+//@   props C15 C07
+//@   conforms type logical
+//@ func cmpBooleanAny
+//@   props C15 C07
+//@   conforms type logical
+//@ func cmpNumericNumeric
+//@   props C15 C07
+//@   conforms type logical
+//@ func cmpNumericString
+//@   props C15 C07
+//@   conforms type logical
+//@ func cmpNumericNodeSet
+//@   props C15 C07
+//@   conforms type logical
+//@ func cmpStringNumeric
+//@   props C15 C07
+//@   conforms type logical
+//@ func cmpStringString
+//@   props C15 C07
+//@   conforms type logical
+//@ func cmpStringNodeSet
+//@   props C15 C07
+//@   conforms type logical
+//@ func cmpNodeSetNumeric
+//@   props C15 C07
+//@   conforms type logical
+//@ func cmpNodeSetString
+//@   props C15 C07
+//@   conforms type logical
+//@ func cmpNodeSetNodeSet
+//@   props C15 C07
+//@   conforms type logical
+//@   loop 1 invariant y != nil
+//@ func eqFunc
+//@   props C15 C07
+//@   conforms logicalQuery.Do
+//@ func gtFunc
+//@   props C15 C07
+//@   conforms logicalQuery.Do
+//@ func geFunc
+//@   props C15 C07
+//@   conforms logicalQuery.Do
+//@ func ltFunc
+//@   props C15 C07
+//@   conforms logicalQuery.Do
+//@ func leFunc
+//@   props C15 C07
+//@   conforms logicalQuery.Do
+//@ func neFunc
+//@   props C15 C07
+//@   conforms logicalQuery.Do
+//@ func cmpBooleanAny$1
+//@   props C15 C07
+//@   captures t != nil
+//@   requires valtype(v)
+//@ func getXPathType
+//@   props C15
+//@   inline
+//@   requires[@C15] valtype(i)
+//@ func (*filterQuery).do
+//@   props C15 C02
+//@   requires[@C15] t != nil
+//@   tree-frame
+//@ func (*descendantQuery).Select
+//@   props C15
+//@   requires[@C15] t != nil
+//@   tree-frame
+
+//@ field result predicate(n) result
+//@   requires n != nil
+//@   modifies nothing
+//@ func (*ancestorQuery).Test
+//@   props C15
+//@   requires[@C15] n != nil
+//@ func (*attributeQuery).Test
+//@   props C15
+//@   requires[@C15] n != nil
+//@ func (*childQuery).Test
+//@   props C15
+//@   requires[@C15] n != nil
+//@ func (*cachedChildQuery).Test
+//@   props C15
+//@   requires[@C15] n != nil
+//@ func (*descendantQuery).Test
+//@   props C15
+//@   requires[@C15] n != nil
+//@ func (*followingQuery).Test
+//@   props C15
+//@   requires[@C15] n != nil
+//@ func (*precedingQuery).Test
+//@   props C15
+//@   requires[@C15] n != nil
+//@ func (*parentQuery).Test
+//@   props C15
+//@   requires[@C15] n != nil
+//@ func (*selfQuery).Test
+//@   props C15
+//@   requires[@C15] n != nil
+
+// ---------------------------------------------------------------------------
+// The builder establishes the well-formedness the evaluation phase relies on.
+
+//@ define built(q, err) = err == nil ==> q != nil && !is(q, nopQuery)
+
+//@ func (*builder).processNode
+//@   props C15
+//@   preserves heap(F:*Node.*), heap(S:query)      // the builder never writes the parse tree nor argument lists it did not create
+//@   ensures[wf@C15] built(q, err)
+//@ func (*builder).processAxis
+//@   props C15
+//@   preserves heap(F:*Node.*), heap(S:query)      // the builder never writes the parse tree nor argument lists it did not create
+//@   requires root != nil
+//@   ensures[wf@C15] built(result0, result1)
+//@ func (*builder).processFilter
+//@   props C15
+//@   preserves heap(F:*Node.*), heap(S:query)      // the builder never writes the parse tree nor argument lists it did not create
+//@   requires root != nil
+//@   ensures[wf@C15] built(result0, result1)
+//@ func (*builder).processFunction
+//@   props C15
+//@   preserves heap(F:*Node.*), heap(S:query)      // the builder never writes the parse tree nor argument lists it did not create
+//@   loop 0 invariant elemsNonNil(args)
+//@   loop 0 invariant args == nil || isFresh(args)
+//@   requires root != nil
+//@   ensures[wf@C15] built(result0, result1)
+//@ func (*builder).processOperator
+//@   props C15
+//@   preserves heap(F:*Node.*), heap(S:query)      // the builder never writes the parse tree nor argument lists it did not create
+//@   requires root != nil
+//@   ensures[wf@C15] built(result0, result1)
+//@ func build
+//@   props C15 C06
+//@   ensures[wf@C15] built(q, err)
+//@ func Compile
+//@   props C15 C06
+//@ func CompileWithNS
+//@   props C15 C06
+//@ func MustCompile
+//@   props C15 C06
+//@ func axisPredicate
+//@   props C15 C14
+//@   requires root != nil
+//@   modifies nothing
+//@   ensures result != nil
+//@ func positionFunc
+//@   props C15 C03
+//@   modifies nothing
+//@   ensures[nonnil@C15] result != nil
+//@ func lastFunc
+//@   props C15 C03
+//@   modifies nothing
+//@   ensures[nonnil@C15] result != nil
+
+// Parse tree nodes: the tag stored in the embedded nodeType identifies the node type, the
+// operator of an operatorNode is one of the operators the builder translates, a constant
+// operand is a number or a string.
+//@ define opOK(op) = op == "+" || op == "-" || op == "*" || op == "div" || op == "mod" || op == "=" || op == "!=" || op == "<" || op == "<=" || op == ">" || op == ">=" || op == "or" || op == "and" || op == "|"
+//@ inv rootNode: self.nodeType == nodeRoot
+//@ inv axisNode: self.nodeType == nodeAxis
+//@ inv filterNode: self.nodeType == nodeFilter && self.Input != nil && self.Condition != nil
+//@ inv functionNode: self.nodeType == nodeFunction
+//@ inv operatorNode: self.nodeType == nodeOperator && opOK(self.Op)
+//@ inv variableNode: self.nodeType == nodeVariable
+//@ inv operandNode: self.nodeType == nodeConstantOperand && (is(self.Val, float64) || is(self.Val, string))
+//@ inv groupNode: self.nodeType == nodeGroup
+
+//@ iface node.Type() result
+//@   trusted        // the compiler-generated wrapper of the promoted method returns the embedded nodeType field
+//@   modifies nothing
+//@   ensures is(self, *rootNode) ==> result == as(self, *rootNode).nodeType
+//@   ensures is(self, *axisNode) ==> result == as(self, *axisNode).nodeType
+//@   ensures is(self, *filterNode) ==> result == as(self, *filterNode).nodeType
+//@   ensures is(self, *functionNode) ==> result == as(self, *functionNode).nodeType
+//@   ensures is(self, *operatorNode) ==> result == as(self, *operatorNode).nodeType
+//@   ensures is(self, *variableNode) ==> result == as(self, *variableNode).nodeType
+//@   ensures is(self, *operandNode) ==> result == as(self, *operandNode).nodeType
+//@   ensures is(self, *groupNode) ==> result == as(self, *groupNode).nodeType
+
+//@ func newOperatorNode
+//@   props C15
+//@   requires[op-known@C15] opOK(op)
+//@   modifies nothing
+//@   ensures result != nil && is(result, *operatorNode)
+//@ func newOperandNode
+//@   props C15
+//@   requires[valtype@C15] is(v, float64) || is(v, string)
+//@   modifies nothing
+//@   ensures result != nil
+//@ func newAxisNode
+//@   props C15
+//@   modifies nothing
+//@   ensures result != nil
+//@ field newAxisNode.opts[](p) 
+//@   requires p != nil
+//@   modifies p.*
+//@ func newVariableNode
+//@   props C15
+//@   modifies nothing
+//@   ensures result != nil
+//@ func newFilterNode
+//@   props C15
+//@   requires[@C15] n != nil && m != nil
+//@   modifies nothing
+//@   ensures result != nil
+//@ func newGroupNode
+//@   props C15
+//@   modifies nothing
+//@   ensures result != nil
+//@ func newRootNode
+//@   props C15
+//@   modifies nothing
+//@   ensures result != nil
+//@ func newFunctionNode
+//@   props C15
+//@   modifies nothing
+//@   ensures result != nil
+//@ func (*parser).parseOrExpr
+//@   props C15 C10
+//@ func (*parser).parseAndExpr
+//@   props C15 C10
+//@ func (*parser).parseEqualityExpr
+//@   props C15 C10
+//@ func (*parser).parseRelationalExpr
+//@   props C15 C10
+//@ func (*parser).parseAdditiveExpr
+//@   props C15 C10
+//@ func (*parser).parseMultiplicativeExpr
+//@   props C15 C10
+//@ func (*parser).parseUnaryExpr
+//@   props C15 C10
+//@ func (*parser).parseUnionExpr
+//@   props C15 C10
+//@ func (*parser).parseSequence
+//@   props C15 C10
+//@ func (*parser).parsePrimaryExpr
+//@   props C15 C10
+
+// ---------------------------------------------------------------------------
+// The regexp cache (cache.go). The cache is shared between goroutines: its map
+// and reset counter are guarded by the embedded RWMutex. When the lock is
+// taken the guarded state is unknown except for the lock invariant; when the
+// write lock is released the invariant must hold again.
+
+//@ define regexLoader(f) = fn(f) == fnid("defaultRegexpCache$1")
+//@ define cacheInv(c) = c.m != nil && (c.cap > 0 ==> len(c.m) <= c.cap) && forall(k, any, has(c.m, k) ==> c.m[k] == loadval(c, k) && loadok(c, k)) && (regexLoader(c.load) ==> forall(k, any, has(c.m, k) ==> is(c.m[k], *regexp.Regexp) && as(c.m[k], *regexp.Regexp) != nil))
+
+//@ field loadingCache.load(key) result0, result1
+//@   modifies nothing
+//@   ensures-assumed[deterministic] (result1 == nil) == loadok(self, key)
+//@   ensures-assumed[deterministic] result1 == nil ==> result0 == loadval(self, key)
+//@   ensures-assumed[client-loader] regexLoader(self.load) && result1 == nil ==> is(result0, *regexp.Regexp) && as(result0, *regexp.Regexp) != nil
+
+//@ func defaultRegexpCache$1
+//@   props C16 C15
+//@   ensures[regexp-or-error@C16,C15] result1 == nil ==> is(result0, *regexp.Regexp) && as(result0, *regexp.Regexp) != nil
+//@   modifies nothing
+
+//@ func NewLoadingCache
+//@   props C16 C15
+//@   requires load != nil
+//@   modifies nothing
+//@   panics "capacity must be >= 0"
+//@   ensures[inv@C16] result != nil && cacheInv(result) && result.cap == capacity && result.load == load && len(result.m) == 0
+
+//@ func defaultRegexpCache
+//@   props C16 C15
+//@   modifies nothing
+//@   ensures[loader@C16,C15] result != nil && regexLoader(result.load) && cacheInv(result)
+
+//@ func (*loadingCache).get
+//@   props C16 C15 C05
+//@   guards c.m, c.reset, heap(M:map[interface{}]interface{}*)
+//@   lockinv cacheInv(c)
+//@   modifies c.m, c.reset, heap(M:map[interface{}]interface{}*)
+//@   ensures[exact@C16] result1 == nil ==> loadok(c, key) && result0 == loadval(c, key)
+//@   ensures[errors-reported@C16] result1 != nil ==> !loadok(c, key)
+//@   ensures[typed@C16,C15] regexLoader(old(c.load)) && result1 == nil ==> is(result0, *regexp.Regexp) && as(result0, *regexp.Regexp) != nil
+
+//@ func getRegexp
+//@   props C16 C15
+//@   requires[regexp-cache@C15,C16] RegexpCache != nil && regexLoader(RegexpCache.load)
+//@   modifies heap(F:loadingCache.m), heap(F:loadingCache.reset), heap(M:map[interface{}]interface{}*)
+//@   ensures[nonnil@C15,C16] result1 == nil ==> result0 != nil
